@@ -6,6 +6,13 @@ HOOKS = {
     "add_only": True,
 }
 ENGINES = [
+    {"name": "srv", "path": "lean/Fbr/Wire.lean lean/Fbr/Srv.lean lean/Fbr/SrvAsync.lean lean/Fbr/SrvShow.lean lean/Fbr/SrvSpec.lean lean/Fbr/Lemmas/Srv*.lean lean/Fbr/Lemmas/Wire.lean lean/Drv/Srv.lean lean/Drv/SrvAsync.lean harness/src/bin/srv.rs harness/src/scriptfs*.rs harness/src/srvgen.rs harness/src/srvoracle.rs harness/src/vq.rs",
+     "serves_properties": ["C01", "C02", "C03", "C12", "C20"],
+     "kind_free_text": "Lean 4 model of Server::handle_message / async_handle_message with invariant, decode, encode and equivalence theorems; differential harness over both transports with a scripted logging file system and independent request encoders / reply decoders"},
+    {"name": "ptdir", "path": "lean/Fbr/PtDir*.lean lean/Fbr/Lemmas/PtDir*.lean lean/Drv/PtDir.lean harness/src/bin/ptdir.rs",
+     "serves_properties": ["C16"], "kind_free_text": "Lean 4 model of passthrough/pseudo readdir with cookie cache; differential harness on real directories"},
+    {"name": "ptseal", "path": "lean/Fbr/PtSeal*.lean lean/Fbr/Lemmas/PtSeal*.lean lean/Drv/PtSeal.lean harness/src/bin/ptseal.rs",
+     "serves_properties": ["C18"], "kind_free_text": "Lean 4 model of the size-seal checks over a reference host; differential harness on real files"},
     {"name": "abi", "path": "lean/Fbr/Abi.lean lean/Fbr/AbiSpec.lean lean/Fbr/Conv.lean lean/Drv/Abi.lean harness/src/bin/abi_probe.rs translator/ tools/kernel_abi.py",
      "serves_properties": ["C13"],
      "kind_free_text": "Lean 4 theorems over tables regenerated from source (syn translator) and from the kernel header (C compiler); differential run of rustc's layouts / real conversion functions against the Lean model"},
